@@ -857,8 +857,14 @@ def parse_recipe(
     update_passthrough_fields: T.Sequence[str] = (),
 ) -> ParseResult:
     context = ParseContext()
-    objects = parse_file(stream, context)  # parse the yaml without semantics
-    statements = parse_statement_list(objects, context)
+    try:
+        objects = parse_file(stream, context)  # parse the yaml without semantics
+        statements = parse_statement_list(objects, context)
+    except RecursionError as e:
+        raise exc.DataGenSyntaxError(
+            "Recipe is nested too deeply: check for include_file cycles and recursive YAML aliases",
+            getattr(stream, "name", None),
+        ) from e
     tables = context.table_infos
     tables = {
         name: value
